@@ -6,6 +6,7 @@ spec forms:
   ["fn",name] callable (builtin / lambda / plain function)     ["g"] generator object
   ["l",[..]] ["st",[..]] ["t",[..]] ["d",[[k,v]..]] ["dd",[[k,v]..]]
   ["tw",kind,id]  tripwire object (C03; see tripwires.py)
+  ["hb",name]     an object of a hidden builtin class (dict_keys, list_iterator, ...)
   ["sh",n,spec]   the session's n-th shared object (built once from spec, then the same object every time)
 """
 import collections
@@ -68,10 +69,16 @@ def build(spec, classes, tw=None, shared=None):
         for k, v in spec[1]:
             d[build(k, classes, tw, shared)] = build(v, classes, tw, shared)
         return d
+    if t == "hb":
+        return HIDDEN_BUILTINS[spec[1]]()
     if t == "tw":
         return tw(spec)
     raise ValueError("bad value spec %r" % (spec,))
 
+
+# values whose class lives in `builtins` but is not reachable by that name (a stored trace naming it can never be decoded again)
+HIDDEN_BUILTINS = {"dict_keys": lambda: {"a": 1}.keys(), "dict_values": lambda: {"a": 1}.values(), "list_iterator": lambda: iter([1]),
+                   "range_iterator": lambda: iter(range(2)), "builtin_function_or_method_self": lambda: type(len)}
 
 HASHABLE_ATOMS = ("i", "s", "b", "f", "n", "by")
 
@@ -80,6 +87,8 @@ def gen_atom(rng, kn, classes):
     if kn.get("tw_p") and rng.random() < kn["tw_p"]:
         kn["_tw"][0] += 1
         return ["tw", rng.choice(kn["tw_kinds"]), kn["_tw"][0]]
+    if kn.get("hidden_builtins") and rng.random() < 0.06:
+        return ["hb", rng.choice(["dict_keys", "dict_values", "list_iterator", "range_iterator"])]
     r = rng.random()
     if r < 0.25:
         return ["i", rng.choice([0, 1, 2, 7, -3])]
@@ -167,7 +176,7 @@ def gen_value(rng, kn, classes, depth=None):
 
 def gen_big_container(rng):
     """A large homogeneous container (16..40 items): the kind of value an identity-keyed cache would remember."""
-    n = rng.randint(16, 40)
+    n = rng.choice([rng.randint(16, 40), rng.randint(16, 40), 260, 300, 520])
     kind = rng.choice(["l", "l", "d", "st"])
     if kind == "l":
         return ["l", [["i", i % 5] for i in range(n)]]
